@@ -419,8 +419,8 @@ func init() {
 				// the follow-up is the previous assignment again, or the rejected one sent once more (the coordinator
 				// repeats an update that was answered with an error)
 				for _, again := range []bool{false, true} {
-					if again && c.Thorough() && pr.prev != "b-one" && pr.prev != "a-empty" {
-						continue // thorough: the repeated update for the pairs that start from these two assignments
+					if again && c.Thorough() && !(pr.prev == "b-one" && pr.next == "b2-one-relabelled") && !(pr.prev == "a-empty" && pr.next == "b-one") {
+						continue // thorough (81 pairs, every byte offset): the repeated update for two small pairs only
 					}
 					followFile = prevFile
 					wantT, wantName, tag := prevT, pr.prev, ""
